@@ -515,22 +515,57 @@ def dimension_tables(rep, F):
                 rep.bad("R1.6", key, bad + (": the disjoint-envelope shortcut of relate then writes a wrong boundary/interior cell" if meth == "boundary_dimensions" else ""), where=fn.loc())
             else:
                 rep.ok("R1.6", "%s[%d assignments]" % (key, n))
-    # MultiLineString::is_closed is an `all` fold over the members' is_closed
+    # MultiLineString::is_closed on 0..3 abstract members, every assignment of the members' own is_closed: true exactly when every member is closed
+    # (value-level; an earlier form required the call `Iterator::all`, which an equivalent explicit loop does not contain)
     try:
+        import itertools as _it
+        from ..symex import bare as _bare
         fn = F.one(r"^geo_types::geometry::multi_line_string::MultiLineString::<T>::is_closed$", crates=("geo_types",))
-        kinds = []
-        inner = []
-        for g in [fn] + F.closures_of(fn):
-            for c in g.calls():
-                if c.trait == "core::iter::traits::iterator::Iterator" and c.method in ("all", "any"):
-                    kinds.append(c.method)
-                if (c.path or "").endswith("LineString::<T>::is_closed"):
-                    inner.append(c.path)
-        if kinds == ["all"]:
-            rep.ok("R1.6", "MultiLineString::is_closed=all")
+        bad = None
+        rows = 0
+        for K in range(4):
+            members = tuple(("opaque", "m%d" % i_) for i_ in range(K))
+            mls = ("&", ("adt", "geo_types::geometry::multi_line_string::MultiLineString", "MultiLineString", (("call", "vec!", (("array", members),)),)))
+            ex = Symex(F, concrete_iters=True, loop_bound=K + 3, inline_crates=("geo_types",), max_paths=2000, no_inline=[r"LineString::<T>::is_closed$"])
+            for p in ex.run(fn, args=[mls]):
+                if p.kind == "cut":
+                    continue
+                val = {}
+                for t, v in p.pc:
+                    mm = re.findall(r"opaque\(m(\d)\)", _bare(t))
+                    if "is_closed(" in _bare(t) and len(set(mm)) == 1:
+                        val[int(mm[0])] = bool(v)
+                    else:
+                        bad = "decides on `%s`" % _bare(t)[:100]
+                r = p.ret
+                if p.kind != "ret":
+                    bad = "a path does not return"
+                if bad:
+                    break
+                outs = [(val, bool(r[1]))] if r[0] == "const" else None
+                if outs is None:
+                    mm = re.findall(r"opaque\(m(\d)\)", _bare(r))
+                    if "is_closed(" in _bare(r) and len(set(mm)) == 1:
+                        outs = [({**val, int(mm[0]): x}, x) for x in (False, True)]
+                    else:
+                        bad = "returns `%s`" % _bare(r)[:100]
+                        break
+                for v_, got in outs:
+                    free = [i_ for i_ in range(K) if i_ not in v_]
+                    wants = {all({**v_, **dict(zip(free, bits))}[i_] for i_ in range(K)) for bits in _it.product((False, True), repeat=len(free))}
+                    rows += 1
+                    if wants != {got}:
+                        bad = "%d member(s) with is_closed = %s: returns %s, expected %s" % (K, v_, got, sorted(wants))
+                        break
+                if bad:
+                    break
+            if bad:
+                break
+        if bad:
+            rep.bad("R1.6", "MultiLineString::is_closed", "MultiLineString::is_closed %s (it must be true exactly when every member is closed)" % bad, where=fn.loc())
         else:
-            rep.bad("R1.6", "MultiLineString::is_closed", "is_closed folds its members with %s, expected all(LineString::is_closed)" % kinds, where=fn.loc())
-    except KeyError as e:
+            rep.ok("R1.6", "MultiLineString::is_closed=all[%d rows]" % rows)
+    except (KeyError, Unanalysable) as e:
         rep.bad("R1.6", "MultiLineString::is_closed:anchor", str(e))
 
 
